@@ -52,7 +52,8 @@ SPEC = {
     "rule": "fixed corpus of ~80 edge strings; grammar-generated concrete syntax trees (depth 1..6, conventional minimal "
             "parentheses plus random redundant ones, random Unicode-blank layout, literals of all admitted shapes incl. rounding "
             "edge cases, u64-boundary integers, inf/subnormal/zero exponents, pi; random non-continuing remainder); two deep "
-            "nestings (20, 60); malformed-by-construction strings (cannot start / dangling operator / unclosed parenthesis) with "
+            "nestings (20, 60); large whole exponents (3 .. 2^31-2, 2^31-1, 2^31, 2^31+1, 2^32-1, 2^32, 2^32+1, 1e10, 1e11, 2^53+1, 2^64-1, 1e300, and their negatives) "
+            "on bases 0-1, -1, 1+1e-10, 1-1e-10, 0.999999, 1.0000001, 2, 0.5, -1.0000000001, 1, -2 (size and parity of the exponent matter); malformed-by-construction strings (cannot start / dangling operator / unclosed parenthesis) with "
             "the expected error constructor and payload; mutated renderings and token-soup garbage incl. non-White_Space Unicode. "
             "HISTORIES (error path followed by normal use on one thread): batches of 50, 250 and 1000 (thorough: also 199, 200, 5000) "
             "failing parses on a fresh thread (quick: 5 batches of 50, 3 of 250, 1 of 1000), cycling through failing texts of one kind or of all kinds - dangling operator inside an open "
